@@ -59,6 +59,16 @@ FOUR = {
 }
 
 
+# printing-sensitive shapes: unary results below builtins / as a power base, parameters, nested calls
+PRINTING = {
+    "floor_neg": [("b", ("floor", ("neg", ("loc", "a")))), ("c", ("ceil", ("neg", ("loc", "b"))))],
+    "inv_pow": [("b", ("pow", ("inv", ("loc", "a")), ("const", 2))), ("c", ("pow", ("pos", ("neg", ("loc", "a"))), ("const", 2)))],
+    "neg_pow": [("b", ("pow", ("neg", ("loc", "a")), ("const", 2))), ("c", ("pow", ("const", -3), ("abs", ("loc", "a"))))],
+    "round_trunc": [("b", ("round2", ("neg", ("loc", "a")), 1)), ("c", ("trunc", ("sub", ("const", 0), ("loc", "a")))), ("l0", ("sub", ("loc", "b"), ("neg", ("loc", "c"))))],
+    "call_nested": [("b", ("call", ("neg", ("loc", "a")), ("abs", ("loc", "c")))), ("l0", ("call", ("loc", "b"), ("call", ("loc", "a"), ("const", 2))))],
+}
+
+
 def note(ex, k, n=1):
     ex.notes[k] = ex.notes.get(k, 0) + n
 
@@ -88,16 +98,27 @@ def run_case(ex, case):
     note(ex, "programs")
     if len(args) == 2:
         note(ex, "two_arguments")
-    vals = [ex.int(f"arg{i}") for i in range(len(args))]
-    try:
-        f(*vals)
-    except (Abort, Inconclusive):
-        raise
-    except Exception as e:
-        ex.fail(f"the generated function raised {type(e).__name__}: {e}", det)
+    mkv = ex.real if case.get("real_args") else ex.int
+    vals = [mkv(f"arg{i}") for i in range(len(args))]
+    def _out(fn):
+        try:
+            fn()
+            return None
+        except (Abort, Inconclusive):
+            raise
+        except Exception as e:
+            return type(e).__name__
+
+    def _assign_all():
+        for L, v in zip(args, vals):
+            U.assign(tw.r, L, v)
+    o1 = _out(lambda: f(*vals))
+    o2 = _out(_assign_all)
+    if o1 != o2:
+        ex.fail(f"the generated function gives {o1 or 'a result'} where assignment through the manager gives {o2 or 'a result'}", det)
         return
-    for L, v in zip(args, vals):
-        U.assign(tw.r, L, v)
+    if o1 is not None:
+        return
     for M in U.ALL_LOCS:
         if not ex.prove(eq(U.getval(st.d, M), U.getval(tw.d, M)),
                         f"after the generated function, location {M} differs from assignment through the manager", det):
@@ -144,6 +165,12 @@ def cases(tier):
             if not (dsc[0] == "add" and dsc[2] == ("const", 1))]
     for b in builds:
         mans = [[list(x) for x in v] for v in FOUR.values()]
+        for defs in PRINTING.values():
+            defs = [list(x) for x in defs]
+            free = [L for L in LOCS if L not in {t for t, _ in defs}]
+            for a in free[:2]:
+                for real in (False, True):
+                    out.append({"build": b, "defs": defs, "args": [a], "real_args": real})
         n = 0
         for k in (1, 2, 3):
             for combo in itertools.permutations(cand, k):
